@@ -295,6 +295,12 @@ def bosonicInd (modes : List Nat) : List Nat :=
 /-- the interleaved selection `[2m₀, 2m₀+1, 2m₁, 2m₁+1, …]` -/
 def interleaved (modes : List Nat) : List Nat := modes.flatMap fun m => [2 * m, 2 * m + 1]
 
+/-- `displacement(modes)` (after the `fix:` commit): `(x, p)` of every requested mode in the order requested -/
+def bosonicDisplacementInd (modes : List Nat) : List Nat := interleaved modes
+
+/-- the code before the fix sorted the indices, i.e. answered in ascending mode order -/
+def bosonicDisplacementIndOld (modes : List Nat) : List Nat := bosonicInd modes
+
 /-- `reduced_bosonic(modes)`: the index list applied to every component's mean and covariance
 (`none` = the state's own arrays are returned) -/
 def reducedBosonic (n : Nat) (modes : List Nat) : Except Err (Nat × List Nat) :=
